@@ -91,6 +91,63 @@ def sf(name):
     return ('field', SELF, name)
 
 
+def store_elem_accessors(facts, RL):
+    """inherent methods of the shard store that hand out element `index` exactly as its Index impl does:
+    `fn shard(&self, index: usize) -> &[[u8; 64]] { &self.data[index * self.len..(index + 1) * self.len] }` (also &mut)"""
+    out = set()
+    for q, g in facts.fns.items():
+        if g.impl_self_adt != RL.store_adt or g.impl_trait or not g.hir or len(g.hir.get('params', [])) != 2:
+            continue
+        if not re.match(r'&(mut )?\[\[u8; 64\]\]$', g.output or ''):
+            continue
+        ip = g.hir['params'][1]
+        if ip.get('k') != 'bind':
+            continue
+        v = hcanon(g.hir['value'], {})
+        while isinstance(v, tuple) and v and v[0] in ('ref', 'deref'):
+            v = v[1]
+        if not (isinstance(v, tuple) and v[0] == 'index' and isinstance(v[2], tuple) and v[2][0] == 'struct' and str(v[2][1]).endswith('ops::Range')):
+            continue
+        base = v[1]
+        while isinstance(base, tuple) and base and base[0] in ('ref', 'deref'):
+            base = base[1]
+        if not (isinstance(base, tuple) and base[0] == 'field' and base[1] == ('local', 'self')):
+            continue
+        d = dict(v[2][2])
+        i = ('local', ip['name'])
+        st, en = d.get('start'), d.get('end')
+
+        def prod(x):
+            """(index-ish factor, length field) of a product with a field of self"""
+            if isinstance(x, tuple) and x[0] == 'bin' and x[1] == 'Mul':
+                for a_, b_ in ((x[2], x[3]), (x[3], x[2])):
+                    if isinstance(b_, tuple) and b_[0] == 'field' and b_[1] == ('local', 'self'):
+                        return a_, b_
+            return None
+        ps, pe = prod(st), prod(en)
+        if ps and pe and ps[1] == pe[1] and ps[0] == i and pe[0] in (('bin', 'Add', i, ('const', 1)), ('bin', 'Add', ('const', 1), i), core.norm_bin('Add', i, ('const', 1))):
+            out.add(q)
+    return out
+
+
+def via_elem_accessor(facts, RL, payload, store, pos):
+    acc = store_elem_accessors(facts, RL)
+    hit = []
+
+    def go(c):
+        if isinstance(c, tuple):
+            if c and c[0] == 'call' and c[1] in acc and len(c[2]) == 2:
+                x = c[2][0]
+                while isinstance(x, tuple) and x and x[0] in ('ref', 'deref'):
+                    x = x[1]
+                if x == store and c[2][1] == pos:
+                    hit.append(c)
+            for y in c:
+                go(y)
+    go(payload)
+    return bool(hit)
+
+
 def accessors(ctx, facts, cfg):
     RL = roles_mod.roles(facts)
     spec = {'enc': dict(count='recovery_count', base=None), 'dec': dict(count='original_count', base='original_base_pos')}
@@ -146,7 +203,7 @@ def accessors(ctx, facts, cfg):
         payload = RL.norm(core.inline_calls(hcanon(e['args'][0], env), facts), p)
         ptxt = repr(payload)
         want_idx = ('index', sf('shards'), pos)
-        if repr(want_idx) not in ptxt:
+        if repr(want_idx) not in ptxt and not via_elem_accessor(facts, RL, RL.norm(hcanon(e['args'][0], env), p), sf('shards'), pos):
             problems.append('exposed slice is not self.shards[%s]' % hshow(pos))
         rng = [x for x in core.hir_find(e['args'][0], lambda n: core.is_range_struct(n) is not None)]
         ok_cut = False
